@@ -3,6 +3,7 @@ import RedoModel.Core.History
 import RedoModel.Lemmas.Deps
 import RedoModel.Lemmas.DepsSoundSpec
 import RedoModel.Lemmas.DepsSound41
+import RedoModel.Props.C01b
 /-!
 # C01 — No stale target after a successful redo-ifchange
 Property theorems only.
